@@ -911,6 +911,10 @@ class Interp:
             return k.what           # an enum member named in the source (PhysicalQuantities.ANGLE): a name is its own key
         if isinstance(k, AObj) and '__enum_member__' in k.attrs:
             return f"{k.attrs['__class__']}.{k.attrs['__enum_member__']}"
+        if isinstance(k, (tuple, list)) or (isinstance(k, AList) and not getattr(k, 'mutable', True)):
+            return ('tuple',) + tuple(self.key_of(x, node) for x in (k.items if isinstance(k, AList) else k))
+        if isinstance(k, bool):
+            return k
         raise Unknown(f"dictionary key is abstract at line {getattr(node, 'lineno', 0)}")
 
     def iterate(self, it, node):
@@ -2012,6 +2016,12 @@ class Interp:
                     return AList([self.byte_to_int(b) for b in x.items])
                 if isinstance(x, (range, tuple, list, ADict)):
                     return AList(self.iterate(x, e))
+            if n == 'tuple' and len(args) <= 1 and not kw and 'tuple' not in env:
+                if not args:
+                    return ()
+                x = args[0]
+                if isinstance(x, (AList, range, tuple, list, ADict, ABytes, LazyGen)):
+                    return tuple(self.iterate(x, e))
             if n == 'sum' and args:
                 x = args[0]
                 start = args[1] if len(args) > 1 else kw.get('start', AInt(0))
